@@ -164,6 +164,8 @@ type respPlan struct {
 	HeaderCount int        `json:"header_count_delta"`
 	ItemsDelta  int        `json:"item_count_delta"`
 	Items       []itemPlan `json:"items"`
+	// HeaderVersion: "" = the response header carries the request's protocol version; else this "major.minor"
+	HeaderVersion string `json:"header_version,omitempty"`
 }
 type c12Case struct {
 	BatchSize int        `json:"batch_size,omitempty"`
@@ -256,6 +258,9 @@ func drawRespPlan(rt *rapid.T, op kmip.Operation, nItems int) respPlan {
 	if rapid.IntRange(0, 5).Draw(rt, "itemsdev") == 0 {
 		rp.ItemsDelta = rapid.SampledFrom([]int{-1, 1, 2}).Draw(rt, "itemsdelta")
 	}
+	if rapid.IntRange(0, 3).Draw(rt, "hdrverdev") == 0 {
+		rp.HeaderVersion = rapid.SampledFrom([]string{"1.0", "1.0", "1.1", "1.4", "2.0", "0.0"}).Draw(rt, "hdrver")
+	}
 	n := nItems + rp.ItemsDelta
 	if n < 0 {
 		n = 0
@@ -273,7 +278,12 @@ func buildResponse(rp respPlan, req *ttlvref.Node) []byte {
 	ver := find(req, tProtoVersion)
 	hdr := &ttlvref.Node{Tag: 0x42007A, Type: ttlvref.Structure}
 	if ver != nil {
-		hdr.Kids = append(hdr.Kids, ver.Clone())
+		v := ver.Clone()
+		var maj, min int64
+		if n, _ := fmt.Sscanf(rp.HeaderVersion, "%d.%d", &maj, &min); n == 2 && len(v.Kids) == 2 {
+			v.Kids[0].I, v.Kids[1].I = maj, min
+		}
+		hdr.Kids = append(hdr.Kids, v)
 	}
 	hdr.Kids = append(hdr.Kids, &ttlvref.Node{Tag: 0x420092, Type: ttlvref.DateTime, I: 1700000000})
 	hdr.Kids = append(hdr.Kids, &ttlvref.Node{Tag: tBatchCount, Type: ttlvref.Integer, I: int64(len(rp.Items) + rp.HeaderCount)})
@@ -604,7 +614,7 @@ func c12Run(c c12Case) (sig string, err error) {
 func TestC12Responses(t *testing.T) {
 	const name = "TestC12Responses"
 	rec := evid.New("C12", name, "for every fluent builder (26), Request, Batch+Unwrap, the discovery exchange of Dial and the crypto.Signer construction: a generated well-formed response message from a scripted in-memory server - "+
-		"header batch count in {n, n-1, n+1, n+5}, item count n-1..n+2, per item operation {requested, other implemented, unknown, absent}, status {4 named, unnamed}, reason {none, named, unnamed}, message, payload {absent, of the requested operation, of another operation, generic}, in batches Unique Batch Item IDs {echoed in place, of another request item (duplicated or permuted), absent}; "+
+		"header protocol version {the request's, 1.0, 1.1, 1.4, 2.0, 0.0}, header batch count in {n, n-1, n+1, n+5}, item count n-1..n+2, per item operation {requested, other implemented, unknown, absent}, status {4 named, unnamed}, reason {none, named, unnamed}, message, payload {absent, of the requested operation, of another operation, generic}, in batches Unique Batch Item IDs {echoed in place, of another request item (duplicated or permuted), absent}; "+
 		"oracle: returns; error or the requested operation's payload type; a failed item surfaces as an error carrying status, reason and message; non-trivial = the response deviates from the conformant one; distinct by case").Attach(t)
 	if rp := evid.LoadReplay(name); rp != nil {
 		var c c12Case
@@ -647,7 +657,7 @@ func TestC12Responses(t *testing.T) {
 		}
 		nt := false
 		for _, p := range c.Plans {
-			if p.HeaderCount != 0 || p.ItemsDelta != 0 {
+			if p.HeaderCount != 0 || p.ItemsDelta != 0 || p.HeaderVersion != "" {
 				nt = true
 			}
 			for _, it := range p.Items {
